@@ -25,7 +25,7 @@ def description_lines():
     """Every line of the description (leading/trailing newlines removed) is the corresponding comment line with the
     ' * ' prefix removed - line for line, none lost, none added."""
     job = KJob("C13")
-    n = 7 if THOROUGH else 5
+    n = 6 if THOROUGH else 5
     alphabet = [ord(c) for c in "ab \n*"]
     d = BStr.var("d", n)
     for ind in ("", "    "):
